@@ -624,3 +624,752 @@ def function_level(rng, tier, st):
             st["model_diff"].append(dict(case=c, why="model and implementation differ at flat position %d" % k, model=out[:40], impl=want[:40],
                                          status=status))
     clear_cache()
+
+
+# ---------------------------------------------------------------------------------------------------------------------
+# encode_bias: real function (also through the public api) vs hand model vs translated source + record reader
+def bias_level(rng, tier, st):
+    import numpy as np
+    from ethosu.vela import api, weight_compressor as wc
+    edge_b = [0, 1, -1, 255, 256, -256, (1 << 31) - 1, -(1 << 31), (1 << 39) - 1, -(1 << 39), 1 << 39, -(1 << 39) - 1, (1 << 40) - 1,
+              -(1 << 40), 1 << 62, 0x0102030405, -0x0102030405]
+    edge_s = [0, 1, 255, 256, 0x01020304, (1 << 31) - 1, 1 << 31, (1 << 32) - 1, 1 << 32, -1]
+    edge_h = [0, 1, 31, 32, 63, 64, 65, -1, 128]
+    cases = [(b, s, h) for b in edge_b for s in edge_s[:6] for h in edge_h[:5]]
+    cases += [(rng.choice(edge_b), rng.choice(edge_s), rng.choice(edge_h)) for _ in range(200)]
+    cases += [(rng.randrange(-(1 << 39), 1 << 39), rng.getrandbits(32), rng.randrange(64)) for _ in range(600 if tier == "quick" else 20000)]
+    impl = []
+    for b, s, h in cases:
+        st["evals"] += 1
+        try:
+            f = api.npu_encode_bias if (b + s) % 2 else wc.encode_bias
+            impl.append([1] + list(f(np.int64(b), s, h)))
+        except AssertionError:
+            impl.append([0])
+        except Exception as ex:
+            impl.append([2, repr(ex)])
+    # property oracle: in range <-> accepted; an independent reader recovers the triple from 10 bytes
+    for (b, s, h), out in zip(cases, impl):
+        inr = -(1 << 39) <= b < (1 << 39) and 0 <= s < (1 << 32) and 0 <= h < 64
+        why = None
+        if inr and out[0] != 1:
+            why = "in-range (bias, scale, shift) rejected"
+        elif not inr and out[0] == 1:
+            why = "out-of-range argument accepted (wrapped into the record)"
+        elif out[0] == 1 and (len(out) != 11 or parse_record(out[1:]) != (b, s, h, 0)):
+            why = "record %r does not read back as (bias, scale, shift) = %r" % (out[1:], (b, s, h))
+        if why and st["first_bad"] is None:
+            st["first_bad"] = (dict(oracle="encode_bias", why=why[:40]), dict(bias=b, scale=s, shift=h, got=out), "encode_bias(%d, %d, %d): %s" % (b, s, h, why))
+        if inr:
+            st["nontrivial"].add(("bias", b.bit_length() // 8, b < 0, s.bit_length() // 8, h // 16))
+    if st["okx"]:
+        flat = [[b, s, h] for b, s, h in cases]
+        m1 = models.run("encode_bias", flat, exe_name=EXE)
+        m2 = models.run("gen_encode_bias", flat, exe_name=EXE)
+        m3 = models.run("decode_bias", [o[1:] for o in impl if o[0] == 1], exe_name=EXE)
+        ok_cases = [c for c, o in zip(cases, impl) if o[0] == 1]
+        for c, o, a, g in zip(cases, impl, m1, m2):
+            st["model_cases"] += 1
+            if a != o or g != o:
+                st["model_diff"].append(dict(case=dict(encode_bias=c), why="encode_bias: model %r / translated %r / implementation %r" % (a, g, o)))
+        for c, d in zip(ok_cases, m3):
+            if d != [1] + list(c):
+                st["model_diff"].append(dict(case=dict(encode_bias=c), why="proved reader decode_bias gives %r" % (d,)))
+
+
+# ---------------------------------------------------------------------------------------------------------------------
+# create_weights / create_dma_op on real encoded tensors
+def addr_level(rng, tier, st):
+    from ethosu.vela import high_level_command_to_npu_op as h2n
+    from ethosu.vela.high_level_command_stream import Box, DMA
+    from ethosu.vela.tensor import Tensor, MemType, TensorPurpose, MemArea
+    from ethosu.vela.data_type import DataType
+    n_cases = 60 if tier == "quick" else 1500
+    margs_w, meta_w, margs_d, meta_d = [], [], [], []
+    made = 0
+    tries = 0
+    while made < n_cases and tries < 20 * n_cases:
+        tries += 1
+        c = gen_case(rng)
+        if not is_valid_request(c, c["offs"]) or c["bmode"] == "bad" or (c["ifm_dtype"] == "int16" and c["bias_dtype"] == "int64"):
+            continue
+        clear_cache()
+        o = build(c)
+        status, r = call_real(o, c["offs"])
+        if status != "ok":
+            continue
+        made += 1
+        tw = r[0]
+        nc = HW[c["accel"]][0]
+        arch = o["arch"]
+        tw.address = 16 * rng.randrange(0, 1 << 20)
+        # a separate scale tensor as after a cache hit with another scale configuration
+        ts = None
+        if rng.random() < 0.4:
+            import numpy as np
+            o2 = build(dict(c, bseed=c["bseed"] + 1), shared=dict(weight=o["w"]))
+            s2, r2 = call_real(o2, c["offs"])
+            if s2 == "ok" and r2[1] is not None:
+                ts = r2[1]
+                ts.mem_type = MemType.Permanent_NPU
+                ts.address = 16 * rng.randrange(0, 1 << 20)
+        rs = ranges_of(tw)
+        srs = ranges_of(ts) if ts is not None else []
+        for i, d in enumerate(c["offs"][:-1]):
+            st["evals"] += 1
+            buffered = rng.random() < 0.5
+            box = Box([0, 0, 0, d], [1, 1, 1, c["offs"][i + 1]])
+            if buffered:
+                size = int(tw.double_buffer_sizes[i % 2])
+                wt = Tensor([1, 1, 1, size], DataType.uint8, "buf")
+                wt.src_tensor = tw
+                wt.mem_type = MemType.Scratch_fast
+                wt.mem_area = MemArea.Sram
+                wt.purpose = TensorPurpose.Weights
+                wt.address = 16 * rng.randrange(0, 1 << 16)
+            else:
+                size = len(tw.buffer)
+                wt = tw
+            try:
+                ws, bs = h2n.create_weights(wt, box, ts, arch)
+                got = [1, len(ws)] + [x for a in ws for x in (a.address, a.length)] + [len(bs)] + [x for a in bs for x in (a.address, a.length)]
+            except (KeyError, AssertionError):
+                ws, bs, got = [], [], [0]
+            margs_w.append([nc, d, 1 if buffered else 0, int(wt.address), 1 if ts is not None else 0, int(ts.address) if ts is not None else 0,
+                            len(rs)] + [x for r_ in rs for x in r_] + [len(srs)] + [x for r_ in srs for x in r_])
+            meta_w.append((c, d, got))
+            # oracle: the ranges are the sections of slice i, aligned, inside the tensor / the double buffer of parity i
+            mine = [r_ for r_ in rs if r_[1] == d]
+            why = None
+            base = int(wt.address)
+            if len(ws) != len(mine) or len(bs) != len(mine):
+                why = "%d weight / %d scale ranges for %d cores of slice %d" % (len(ws), len(bs), len(mine), d)
+            else:
+                first = mine[0][2] if mine else 0
+                for a, b_, r_ in zip(ws, bs, mine):
+                    rel = r_[2] - first if buffered else r_[2]
+                    if (a.address, a.length) != (base + rel + r_[4], r_[5]):
+                        why = "weights of core %d slice %d at (%d, %d), section is (%d, %d)" % (r_[0], d, a.address, a.length, base + rel + r_[4], r_[5])
+                    if ts is None and (b_.address, b_.length) != (base + rel, r_[4]):
+                        why = "scales of core %d slice %d at (%d, %d), section is (%d, %d)" % (r_[0], d, b_.address, b_.length, base + rel, r_[4])
+                    if ts is not None:
+                        sr = [x for x in srs if x[0] == r_[0] and x[1] == d][0]
+                        if (b_.address, b_.length) != (int(ts.address) + sr[2], rup(sr[3], 16)) or sr[2] + rup(sr[3], 16) > len(ts.buffer):
+                            why = "scales of core %d slice %d at (%d, %d) are not the scale tensor's section" % (r_[0], d, b_.address, b_.length)
+                    if a.address % 16 or a.length % 16 or b_.address % 16 or b_.length % 16:
+                        why = "address range of core %d slice %d not 16-byte aligned" % (r_[0], d)
+                    if not (base <= a.address and a.address + a.length <= base + size):
+                        why = "weights of core %d slice %d outside the %s of %d bytes" % (r_[0], d, "double buffer" if buffered else "tensor", size)
+                    if ts is None and not (base <= b_.address and b_.address + b_.length <= base + size):
+                        why = "scales of core %d slice %d outside the %s of %d bytes" % (r_[0], d, "double buffer" if buffered else "tensor", size)
+            if why and st["first_bad"] is None:
+                st["first_bad"] = (dict(oracle="create_weights", buffered=buffered, ncores=nc), dict(case=c, slice=d, reason=why), "create_weights: " + why)
+            st["nontrivial"].add(("cw", nc, buffered, ts is not None, len(c["offs"]) - 1 > 1, i % 2))
+            # DMA of the slice into a buffer
+            out = Tensor([1, 1, 1, int(tw.double_buffer_sizes[i % 2])], DataType.uint8, "dbuf")
+            out.mem_type = MemType.Scratch_fast
+            out.mem_area = MemArea.Sram
+            out.purpose = TensorPurpose.Weights
+            out.address = 16 * rng.randrange(0, 1 << 16)
+            try:
+                dop = h2n.create_dma_op(DMA(None, tw, out, box), arch)
+                gotd = [1, int(dop.src.address), int(dop.src.length)]
+            except (UnboundLocalError, KeyError):
+                dop, gotd = None, [0]
+            margs_d.append([nc, d, int(tw.address), len(rs)] + [x for r_ in rs for x in r_])
+            meta_d.append((c, d, gotd))
+            if dop is not None:
+                size_i = sum(r_[4] + r_[5] for r_ in mine)
+                whyd = None
+                if (dop.src.address, dop.src.length) != (int(tw.address) + (mine[0][2] if mine else 0), size_i):
+                    whyd = "DMA of slice %d reads (%d, %d), the slice is (%d, %d)" % (d, dop.src.address - int(tw.address), dop.src.length, mine[0][2], size_i)
+                elif dop.dest.length > int(tw.double_buffer_sizes[i % 2]) or dop.dest.address != int(out.address):
+                    whyd = "DMA of slice %d writes %d bytes into a double buffer of %d" % (d, dop.dest.length, tw.double_buffer_sizes[i % 2])
+                if whyd and st["first_bad"] is None:
+                    st["first_bad"] = (dict(oracle="create_dma_op", ncores=nc), dict(case=c, slice=d, reason=whyd), "create_dma_op: " + whyd)
+    if st["okx"] and margs_w:
+        for (c, d, got), out in zip(meta_w, models.run("create_weights", margs_w, exe_name=EXE)):
+            st["model_cases"] += 1
+            if out != got:
+                st["model_diff"].append(dict(case=c, why="create_weights slice %d: model %r implementation %r" % (d, out[:12], got[:12])))
+        for (c, d, got), out in zip(meta_d, models.run("create_dma", margs_d, exe_name=EXE)):
+            st["model_cases"] += 1
+            if out != got:
+                st["model_diff"].append(dict(case=c, why="create_dma_op slice %d: model %r implementation %r" % (d, out, got)))
+    clear_cache()
+
+
+# ---------------------------------------------------------------------------------------------------------------------
+# request histories through the process-wide CompressedWeightCache
+BLOCK_TYPE = {"conv": 1, "tconv": 1, "depthwise": 2, "fc": 3}
+KEY_FIELDS = ["block_type", "block_depth_clipped", "slices", "dilation", "weight_value_id"]
+
+
+def fbits(x):
+    import struct
+    import numpy as np
+    return struct.unpack("<I", struct.pack("<f", float(np.float32(x))))[0]
+
+
+def eff_sections(r):
+    """what the NPU will be pointed at per (core, depth): (scale bytes, weight bytes), following create_weights"""
+    tw, ts = r
+    out = {}
+    for k, v in tw.encoded_ranges.items():
+        if ts is None:
+            sb = bytes(tw.buffer[v.offset: v.offset + v.scale_bytes])
+        else:
+            y = ts.encoded_ranges.get(k)
+            sb = bytes(ts.buffer[y.offset: y.offset + y.scale_bytes]) if y is not None else None
+        out[(int(k[0]), int(k[1]))] = (sb, bytes(tw.buffer[v.offset + v.weight_offset: v.offset + v.weight_offset + v.weight_bytes]))
+    return out
+
+
+def gen_history(rng, sound=True):
+    """a list of request dicts.  Requests on the same weight index share the weight tensor (value_id).  sound: requests
+    sharing a weight tensor agree on everything outside the key (IFM type, accelerator, operator kind)"""
+    nw = rng.randint(1, 3)
+    pool = []
+    for _ in range(nw):
+        kind = rng.choice(["conv", "conv", "depthwise", "fc", "tconv"])
+        base = gen_case(rng, kind=kind)
+        base.update(bmode="rand", style="sched", away=False)
+        base.pop("explicit", None)
+        base.pop("bad_at", None)
+        base["nbias"] = base["wshape"][-1]
+        if base["ifm_dtype"] == "int16":
+            base["bias_dtype"] = "int32"
+        pool.append(base)
+    h = []
+    for _ in range(rng.randint(2, 7)):
+        wi = rng.randrange(nw)
+        base = pool[wi]
+        n = base["wshape"][-1]
+        nc = HW[base["accel"]][0]
+        q = dict(base, widx=wi)
+        prev = [p for p in h if p["widx"] == wi]
+        if prev and rng.random() < 0.25:
+            q = dict(rng.choice(prev), repeat=True)  # the very same request again: a full hit
+            h.append(q)
+            continue
+        q["bd"] = rng.choice([8, 16, 16, 24, 32])
+        q["offs"] = gen_slices(rng, n, nc, q["bd"], rng.choice(["full", "full", "sched", "even"]))
+        if base["kind"] in ("conv", "depthwise"):
+            q["dil"] = rng.choice([[1, 1], [1, 1], [2, 2], [2, 1]])
+        q["bseed"] = rng.choice([base["bseed"], rng.getrandbits(30)])
+        q["ofm_scale"] = rng.choice([base["ofm_scale"], base["ofm_scale"], 0.0625])
+        if not sound:
+            what = rng.choice(["ifm_bitdepth", "op_type_transpose_flip", "accelerator_ncores", "accelerator_ublock"])
+            if what == "ifm_bitdepth" and base["wdtype"] == "int8":
+                q["ifm_dtype"] = rng.choice(["int8", "int16"])
+            elif what == "op_type_transpose_flip" and base["kind"] in ("conv", "tconv"):
+                q["kind"] = rng.choice(["conv", "tconv"])
+                q["dil"] = [1, 1]
+            elif what == "accelerator_ncores":
+                q["accel"] = rng.choice(["ethos-u65-512", "ethos-u65-256"])
+            else:
+                q["accel"] = rng.choice(["ethos-u55-32", "ethos-u55-64"])
+        h.append(q)
+    return h
+
+
+def request_fields(q):
+    n = q["wshape"][-1]
+    return dict(block_type=BLOCK_TYPE[q["kind"]], block_depth_clipped=min(q["bd"], n), slices=list(q["offs"]), dilation=list(q["dil"]),
+                weight_value_id=q["widx"], ifm_bitdepth=16 if q["ifm_dtype"] == "int16" else 8,
+                op_type_transpose_flip=q["kind"] == "tconv", accelerator_ncores=HW[q["accel"]][0],
+                accelerator_ublock=HW[q["accel"]][1:], block_depth=q["bd"])
+
+
+def run_history(h):
+    """real calls in one process from an empty cache.  Returns per request (status, kind, origin, response, fresh response)"""
+    clear_cache()
+    weights, made, out = {}, [], []
+    owner = {}
+    for i, q in enumerate(h):
+        if q.get("repeat"):
+            j = next(k for k, p in enumerate(h[:i]) if all(p.get(x) == q.get(x) for x in q if x != "repeat"))
+            o = made[j]
+        else:
+            o = build(q, shared=dict(weight=weights.get(q["widx"])))
+            weights.setdefault(q["widx"], o["w"])
+        made.append(o)
+        status, r = call_real(o, q["offs"])
+        if status != "ok":
+            out.append((status, 0, None, r, None))
+            continue
+        if id(r[0]) in owner:
+            kind, origin = (2 if r[1] is None else 3), owner[id(r[0])]
+        else:
+            owner[id(r[0])] = i
+            kind, origin = 1, i
+        fs, fr = fresh_real(o, q["offs"])
+        out.append((status, kind, origin, r, fr if fs == "ok" else None))
+    clear_cache()
+    return out
+
+
+def bias_identity(h, i):
+    """every request builds its own bias tensor (own value_id) except an exact repeat, which reuses the objects"""
+    q = h[i]
+    if q.get("repeat"):
+        return next(k for k, p in enumerate(h[:i]) if all(p.get(x) == q.get(x) for x in q if x != "repeat"))
+    return i
+
+
+def history_model_args(h, outs):
+    a = [len(h)]
+    for i, q in enumerate(h):
+        n = q["wshape"][-1]
+        recs, _ = expected_channel_records(q, weight_scales(next(p for p in h if p["widx"] == q["widx"])), bias_values(q))
+        a += [BLOCK_TYPE[q["kind"]], q["bd"], n, q["dil"][0], q["dil"][1], HW[q["accel"]][0], 16 if q["ifm_dtype"] == "int16" else 8,
+              ACCELS.index(q["accel"]), 1 if q["kind"] == "tconv" else 0, i, q["widx"],
+              bias_identity(h, i), fbits(q["ifm_scale"]), fbits(q["ofm_scale"])]
+        a += [len(q["offs"])] + list(q["offs"])
+        a += [len(recs)] + [b for b, _, _ in recs]
+        a += [len(recs)] + [x for _, m, s in recs for x in (m, s)]
+    return a
+
+
+def history_level(rng, tier, st):
+    n_hist = 40 if tier == "quick" else 800
+    hists = [gen_history(rng, sound=True) for _ in range(n_hist)] + [gen_history(rng, sound=False) for _ in range(n_hist // 2)]
+    margs, meta = [], []
+    for hi, h in enumerate(hists):
+        sound = hi < n_hist
+        outs = run_history(h)
+        st["evals"] += len(h)
+        flat = []
+        ok = True
+        for i, (q, (status, kind, origin, r, fr)) in enumerate(zip(h, outs)):
+            if status != "ok":
+                flat.append(0)
+                ok = False
+                st["model_diff"].append(dict(case=dict(history=h), why="request %d of a history raised %s" % (i, r)))
+                break
+            eff = eff_sections(r)
+            flat += [kind, len(eff)]
+            for (core, d), (sb, wb) in eff.items():
+                flat += [core, d] + ([len(sb)] + list(sb) if sb is not None else [-1]) + [origin]
+            st["hist_kinds"][kind] += 1
+            # oracle: what is returned equals a fresh encoding, section by section
+            if fr is not None and eff != eff_sections(fr):
+                a, b = request_fields(h[origin]), request_fields(q)
+                diff = [k for k in a if a[k] != b[k]]
+                keyf = [k for k in diff if k in KEY_FIELDS]
+                field = (keyf or diff or ["none"])[0]
+                rec = dict(history=h, request=i, origin=origin, differing_inputs=diff,
+                           stale_weight_bytes=[len(w) for _, w in eff.values()], fresh_weight_bytes=[len(w) for _, w in eff_sections(fr).values()])
+                if keyf or not diff:
+                    # the real key function lost a field (or a hit differs although nothing differs): directly a failing input
+                    if st["first_bad"] is None:
+                        st["first_bad"] = (dict(defect="weight_cache_key_omits", field=field), rec,
+                                           "cached encoding reused although %s differs: response %d is not what a fresh encoding returns" % (field, i))
+                else:
+                    st["stale_fn"].setdefault(field, rec)
+            elif kind != 1:
+                st["nontrivial"].add(("hist", kind, q["kind"], HW[q["accel"]][0], len(q["offs"]) - 1))
+        if ok and sound:
+            margs.append(history_model_args(h, outs))
+            meta.append((h, flat))
+    if st["okx"] and margs:
+        for (h, flat), out in zip(meta, models.run_parallel("cache_run", margs, exe_name=EXE)):
+            st["model_cases"] += 1
+            if out != flat:
+                k = next((i for i, (a, b) in enumerate(zip(out, flat)) if a != b), min(len(out), len(flat)))
+                st["model_diff"].append(dict(case=dict(history=h), why="cache history: model and implementation differ at flat position %d" % k,
+                                             model=out[max(0, k - 6):k + 6], impl=flat[max(0, k - 6):k + 6]))
+
+
+# ---------------------------------------------------------------------------------------------------------------------
+# the histories of cache_reuse_refuted replayed on the implementation: at function level (two requests, equal keys,
+# one differing input) and through the real compiler (vela.main on a generated model, in a fresh process)
+def witness_history(field):
+    base = dict(kind="conv", accel="ethos-u55-128", wshape=[3, 3, 16, 16], ifm_dtype="int8", wdtype="int8", per_channel=False, wzp=0, wzp_np=False,
+                bias_dtype="int32", bd=16, nbias=16, wseed=3, bseed=4, sseed=5, wmode="rand", bmode="rand", ifm_scale=0.05, ofm_scale=0.1,
+                dil=[1, 1], away=False, style="full", offs=[0, 16], widx=0)
+    other = dict(base, bseed=6)
+    if field == "ifm_bitdepth":
+        other["ifm_dtype"] = "int16"
+    elif field == "op_type_transpose_flip":
+        other["kind"] = "tconv"
+    elif field == "accelerator_ncores":
+        other["accel"] = "ethos-u65-512"
+    elif field == "accelerator_ublock":
+        other["accel"] = "ethos-u55-32"
+    return [base, other]
+
+
+WITNESS_FIELDS = ["ifm_bitdepth", "op_type_transpose_flip", "accelerator_ncores", "accelerator_ublock"]
+# how each omitted input is reached through the real compiler (None: no route found -- not reported)
+PIPELINE_ROUTE = {
+    "ifm_bitdepth": "one model in which an int8 CONV_2D and an int16 CONV_2D share the weight tensor (the reader clones it, value_id kept)",
+    "op_type_transpose_flip": "one model in which a CONV_2D and a TRANSPOSE_CONV share the weight tensor",
+    "accelerator_ncores": "two vela.main() calls in one process (ethos-u55-128, then ethos-u65-512) on a model with MEAN: the depthwise "
+                          "weights get a value-derived value_id (create_equivalence_id is an lru_cache), which survives the first compilation",
+    "accelerator_ublock": None,
+}
+
+
+def witness_function_level(st):
+    out = {}
+    for f in WITNESS_FIELDS:
+        h = witness_history(f)
+        res = run_history(h)
+        st["evals"] += len(h)
+        status, kind, origin, r, fr = res[1]
+        stale = status == "ok" and kind != 1 and fr is not None and eff_sections(r) != eff_sections(fr)
+        out[f] = dict(history=h, second_request_kind={1: "miss", 2: "hit", 3: "hit, scales re-encoded", 0: "error"}[kind],
+                      stale_differs_from_fresh=bool(stale),
+                      returned_weight_bytes=[len(w) for _, w in eff_sections(r).values()] if status == "ok" else None,
+                      fresh_weight_bytes=[len(w) for _, w in eff_sections(fr).values()] if fr is not None else None)
+    return out
+
+
+def pipeline_scenarios():
+    return {"ifm_bitdepth": ["shared8_16", ["ethos-u55-128"]], "op_type_transpose_flip": ["conv_tconv", ["ethos-u55-128"]],
+            "accelerator_ncores": ["mean", ["ethos-u55-128", "ethos-u65-512"]]}
+
+
+def pipeline_main(scn, accels, out_dir):
+    """runs in a fresh process: compiles the scenario's network with the real driver, observing every call of
+    encode_weight_and_scale_tensor (hit? equal to a fresh encoding?) and whether a stale tensor reaches a command stream"""
+    sys.path.insert(0, os.path.join(vlib.ROOT, "tools"))
+    import numpy as np
+    import netgen
+    from netgen import Net, PADDING
+    from ethosu.vela import vela, weight_compressor as wc, high_level_command_to_npu_op as h2n, high_level_command_stream as hlcs
+    from ethosu.vela.weight_compressor import CompressedWeightCache
+    o = dict(Padding=PADDING["SAME"], StrideW=1, StrideH=1, DilationWFactor=1, DilationHFactor=1, FusedActivationFunction=0)
+    net = Net(scn)
+    c = oc = 16
+    if scn in ("shared8_16", "conv_tconv"):
+        wt = net.tensor([oc, 3, 3, c], "int8", 0.01, 0, np.random.RandomState(3).randint(-127, 128, [oc, 3, 3, c]))
+        x1 = net.input([1, 8, 8, c], "int8", 0.05, 0)
+        b1 = net.tensor([oc], "int32", 0.0005, 0, np.arange(oc) * 7 - 20)
+        y1 = net.tensor([1, 8, 8, oc], "int8", 0.1, 0)
+        net.op("CONV_2D", [x1, wt, b1], [y1], o)
+        if scn == "shared8_16":
+            x2 = net.input([1, 8, 8, c], "int16", 0.05, 0)
+            b2 = net.tensor([oc], "int64", 0.0005, 0, np.arange(oc) * 7 - 20)
+            y2 = net.tensor([1, 8, 8, oc], "int16", 0.1, 0)
+            net.op("CONV_2D", [x2, wt, b2], [y2], o)
+        else:
+            x2 = net.input([1, 8, 8, c], "int8", 0.05, 0)
+            b2 = net.tensor([oc], "int32", 0.0005, 0, np.arange(oc) * 5 - 20)
+            y2 = net.tensor([1, 16, 16, oc], "int8", 0.1, 0)
+            ot = net.tensor([4], "int32", None, None, [1, 16, 16, oc])
+            net.op("TRANSPOSE_CONV", [ot, wt, x2, b2], [y2], dict(Padding=PADDING["SAME"], StrideW=2, StrideH=2), version=3)
+        net.output(y1, y2)
+    else:
+        x1 = net.input([1, 8, 8, 16], "int8", 0.05, 0)
+        net.output(netgen.mean(net, random.Random(1), x1))
+    path = os.path.join(out_dir, scn + ".tflite")
+    open(path, "wb").write(net.build())
+    orig = wc.encode_weight_and_scale_tensor
+    events, stale_for, state = [], {}, dict(compile=0)
+
+    def sections(t):
+        return [bytes(t.buffer[v.offset + v.weight_offset: v.offset + v.weight_offset + v.weight_bytes]) for v in t.encoded_ranges.values()]
+
+    def wrapped(arch, op, wt_, st_, kernel, bc, offs):
+        wcc = wc.create_weight_compression_config(wt_, op.type.npu_block_type, bc.ofm_block.depth, hash(str(offs)), kernel.dilation)
+        hit = CompressedWeightCache.get_tensor_with_same_compression(wcc) is not None
+        r = orig(arch, op, wt_, st_, kernel, bc, offs)
+        ev = dict(compile=state["compile"], op=op.name, op_type=str(op.type), ifm_bits=op.inputs[0].dtype.size_in_bits(), ncores=int(arch.ncores),
+                  accelerator=arch.accelerator_config.value, weights_shape=[int(x) for x in wt_.values.shape], hit=bool(hit))
+        if hit:
+            saved = dict(CompressedWeightCache.cache)
+            CompressedWeightCache.cache.clear()
+            f = orig(arch, op, wt_, st_, kernel, bc, offs)
+            CompressedWeightCache.cache.clear()
+            CompressedWeightCache.cache.update(saved)
+            ev.update(stale=sections(r[0]) != sections(f[0]) or list(r[0].encoded_ranges) != list(f[0].encoded_ranges),
+                      returned_sections=[len(x) for x in sections(r[0])], fresh_sections=[len(x) for x in sections(f[0])],
+                      returned_traversal=r[0].hw_traversal.name, fresh_traversal=f[0].hw_traversal.name)
+            if ev["stale"]:
+                stale_for[(id(r[0]), op.name)] = r[0]
+        events.append(ev)
+        return r
+
+    orig_gen = h2n.generate_command_stream
+    used = []
+
+    def gen(npu_op_list, arch, verbose, mem_limits, add_to_debug_db=None, npu_op_to_cmd=None):
+        for op in npu_op_list:
+            cmd = (npu_op_to_cmd or {}).get(op)
+            if isinstance(cmd, hlcs.NpuStripe) and cmd.weight_tensor is not None:
+                w = cmd.weight_tensor
+                w = w.src_tensor if getattr(w, "src_tensor", None) is not None else w
+                if (id(w), cmd.ps.primary_op.name) in stale_for:
+                    used.append(dict(compile=state["compile"], op=cmd.ps.primary_op.name, op_type=str(cmd.ps.primary_op.type),
+                                     n_weight_ranges=len(getattr(op, "weights", []) or []), ncores=int(arch.ncores)))
+        return orig_gen(npu_op_list, arch, verbose, mem_limits, add_to_debug_db, npu_op_to_cmd)
+
+    wc.encode_weight_and_scale_tensor = wrapped
+    h2n.generate_command_stream = gen
+    rcs = []
+    import contextlib
+    import io
+    for acc in accels:
+        buf = io.StringIO()
+        try:
+            with contextlib.redirect_stdout(buf), contextlib.redirect_stderr(buf):
+                rcs.append(vela.main([path, "--output-dir", os.path.join(out_dir, "o%d" % state["compile"]), "--accelerator-config", acc]))
+        except BaseException as ex:  # noqa
+            rcs.append("%s: %s" % (type(ex).__name__, ex))
+        state["compile"] += 1
+    print(json.dumps(dict(scenario=scn, accelerators=accels, exit_codes=rcs, events=events, stale_tensor_in_command_stream=used)))
+
+
+def pipeline_level(st):
+    """{field: result} of the compiler-level replays (three fresh processes, in parallel)"""
+    import concurrent.futures
+    out_dir = os.path.join(vlib.BUILD, "c08_pipeline")
+    os.makedirs(out_dir, exist_ok=True)
+
+    def one(item):
+        field, (scn, accels) = item
+        try:
+            p = subprocess.run([vlib.PY, os.path.abspath(__file__), "--pipeline", scn, ",".join(accels), os.path.join(out_dir, scn)],
+                               env=vlib.py_env(), capture_output=True, text=True, timeout=300)
+            line = [ln for ln in p.stdout.split("\n") if ln.startswith("{")]
+            return field, (json.loads(line[-1]) if line else dict(error=(p.stderr or p.stdout)[-1500:]))
+        except Exception as ex:
+            return field, dict(error=repr(ex))
+    with concurrent.futures.ThreadPoolExecutor(max_workers=3) as ex:
+        res = dict(ex.map(one, pipeline_scenarios().items()))
+    st["evals"] += sum(len(r.get("events", [])) for r in res.values())
+    return res
+
+
+# ---------------------------------------------------------------------------------------------------------------------
+# D2: weight / scale register ranges and weight DMAs of real compilations vs the captured (core, slice) ranges
+def d2_level(tier, st):
+    import artefacts
+    import compiles
+    from ethosu import mlw_codec
+    n = 64 if tier == "quick" else 1600
+    jobs = compiles.corpus_jobs() + compiles.plan(FAMS, n, vlib.seed(), tag="d2", capture=True)
+    results = compiles.run_all(jobs, timeout=900)
+    cw_args, cw_meta, dma_args, dma_meta = [], [], [], []
+    d2 = dict(compilations=0, conv_like_ops=0, weight_dmas=0, scale_records=0, weight_sections_decoded=0, buffered_ops=0, two_core_ops=0,
+              separate_scale_tensor_ops=0)
+    bad = None
+    for r in results:
+        if r["status"] != "ok":
+            continue
+        art = artefacts.load(r)
+        if not art or not art["capture"]:
+            continue
+        d2["compilations"] += 1
+        for k, stream in enumerate(art["capture"]["streams"]):
+            match = [j for j, n2 in enumerate(art["npu"]) if n2["words"] == stream["words"]]
+            flash = bytes(art["npu"][match[0]]["flash"]) if match and art["npu"][match[0]]["flash"] is not None else None
+            nc = stream["ncores"]
+            for opi, op in enumerate(stream["ops"]):
+                cmd = op.get("cmd")
+                if not cmd:
+                    continue
+                where = dict(net=r.get("net_name"), seed=r["job"]["seed"], stream=k, op=opi)
+                why = None
+                if cmd.get("kind") == "stripe" and cmd.get("weight") and "weights" in op["api"]:
+                    st["evals"] += 1
+                    d2["conv_like_ops"] += 1
+                    rs = [[rr[0][0], rr[0][1]] + rr[1:] for rr in cmd["encoded_ranges"]]
+                    srs = [[rr[0][0], rr[0][1]] + rr[1:] for rr in cmd.get("scale_ranges", [])] if cmd.get("scale") else []
+                    d, dn = cmd["weight_box"]["start"][-1], cmd["weight_box"]["end"][-1]
+                    buffered = cmd["weight"]["name"] != cmd["weight_src"]["name"] or cmd["weight"].get("src_tensor") is not None
+                    w_addr = cmd["weight"]["address"]
+                    s_addr = cmd["scale"]["address"] if cmd.get("scale") else 0
+                    d2["buffered_ops"] += buffered
+                    d2["two_core_ops"] += nc == 2
+                    d2["separate_scale_tensor_ops"] += bool(cmd.get("scale"))
+                    ws = [(a["address"], a["length"]) for a in op["api"]["weights"]]
+                    bs = [(a["address"], a["length"]) for a in op["api"]["biases"]]
+                    cw_args.append([nc, d, 1 if buffered else 0, w_addr, 1 if cmd.get("scale") else 0, s_addr, len(rs)] + [x for rr in rs for x in rr]
+                                   + [len(srs)] + [x for rr in srs for x in rr])
+                    cw_meta.append((where, [1, len(ws)] + [x for p in ws for x in p] + [len(bs)] + [x for p in bs for x in p]))
+                    mine = [rr for rr in rs if rr[1] == d]
+                    if not mine or len(ws) != len(mine) or len(bs) != len(mine):
+                        why = "%d weight / %d scale ranges, the captured tensor has %d (core, slice %d) ranges" % (len(ws), len(bs), len(mine), d)
+                    else:
+                        first = mine[0][2]
+                        for (wa, wl), (ba, bl), rr in zip(ws, bs, mine):
+                            rel = rr[2] - first if buffered else rr[2]
+                            if wa % 16 or wl % 16 or ba % 16 or bl % 16:
+                                why = "register range of core %d not 16-byte aligned: weights (%d, %d) scales (%d, %d)" % (rr[0], wa, wl, ba, bl)
+                            elif (wa, wl) != (w_addr + rel + rr[4], rr[5]):
+                                why = "weights of core %d at (%d, %d), the (core, slice) range gives (%d, %d)" % (rr[0], wa, wl, w_addr + rel + rr[4], rr[5])
+                            elif not cmd.get("scale") and (ba, bl) != (w_addr + rel, rr[4]):
+                                why = "scales of core %d at (%d, %d), the (core, slice) range gives (%d, %d)" % (rr[0], ba, bl, w_addr + rel, rr[4])
+                            nch = len(range(d + rr[0], dn, nc))
+                            src = cmd["weight_src"]
+                            sb = rr[3]
+                            if cmd.get("scale"):
+                                sr = [x for x in srs if x[0] == rr[0] and x[1] == d]
+                                if not sr or (ba, bl) != (s_addr + sr[0][2], rup(sr[0][3], 16)):
+                                    why = "scales of core %d at (%d, %d) are not the scale tensor's (core, slice) section" % (rr[0], ba, bl)
+                                sb = sr[0][3] if sr else sb
+                            if why is None and sb != 10 * nch:
+                                why = "scale section of core %d slice [%d, %d) has %d bytes for %d channels" % (rr[0], d, dn, sb, nch)
+                            # bytes in the output file
+                            if why is None and flash is not None and src["mem_type"] == "Permanent_NPU":
+                                off = src["address"] + rr[2]
+                                if off + rr[4] + rr[5] > len(flash):
+                                    why = "range of core %d ends at %d, the flash tensor has %d bytes" % (rr[0], off + rr[4] + rr[5], len(flash))
+                                else:
+                                    if not cmd.get("scale"):
+                                        for j in range(rr[3] // 10):
+                                            d2["scale_records"] += 1
+                                            if flash[off + 10 * j + 9] >> 6:
+                                                why = "scale record %d of core %d has non-zero top bits in the output file" % (j, rr[0])
+                                    if rr[5] and opi % 7 == 0:
+                                        dec = mlw_codec.decode(bytearray(flash[off + rr[4]: off + rr[4] + rr[5]]))
+                                        d2["weight_sections_decoded"] += 1
+                                        if len(dec) == 0 and nch:
+                                            why = "weight section of core %d decodes to nothing" % rr[0]
+                    st["nontrivial"].add(("d2", nc, buffered, bool(cmd.get("scale")), len(rs) > nc))
+                elif cmd.get("kind") == "dma" and cmd.get("encoded_ranges"):
+                    st["evals"] += 1
+                    d2["weight_dmas"] += 1
+                    rs = [[rr[0][0], rr[0][1]] + rr[1:] for rr in cmd["encoded_ranges"]]
+                    d = cmd["box"]["start"][-1]
+                    src, dst = op["api"]["src"], op["api"]["dest"]
+                    dma_args.append([nc, d, cmd["in"]["address"], len(rs)] + [x for rr in rs for x in rr])
+                    dma_meta.append((where, [1, src["address"], src["length"]]))
+                    mine = [rr for rr in rs if rr[1] == d]
+                    size = sum(rr[4] + rr[5] for rr in mine)
+                    if not mine or (src["address"], src["length"]) != (cmd["in"]["address"] + mine[0][2], size):
+                        why = "weight DMA reads (%d, %d), slice %d of the tensor is (%d, %d)" % (src["address"], src["length"], d,
+                                                                                                 cmd["in"]["address"] + (mine[0][2] if mine else 0), size)
+                    elif dst["length"] > cmd["out"]["storage_size"]:
+                        why = "weight DMA of slice %d writes %d bytes into a buffer of %d bytes" % (d, dst["length"], cmd["out"]["storage_size"])
+                    elif src["address"] % 16 or src["length"] % 16 or dst["address"] % 16:
+                        why = "weight DMA range not 16-byte aligned"
+                if why and bad is None:
+                    bad = (where, why, r)
+    if st["okx"]:
+        if cw_args:
+            for (where, got), out in zip(cw_meta, models.run_parallel("create_weights", cw_args, exe_name=EXE)):
+                st["model_cases"] += 1
+                if out != got and bad is None:
+                    bad = (where, "create_weights on the captured ranges: proved model gives %r, registers hold %r" % (out[:10], got[:10]), None)
+        if dma_args:
+            for (where, got), out in zip(dma_meta, models.run_parallel("create_dma", dma_args, exe_name=EXE)):
+                st["model_cases"] += 1
+                if out != got and bad is None:
+                    bad = (where, "create_dma_op on the captured ranges: proved model gives %r, the DMA is %r" % (out, got), None)
+    st["d2"] = d2
+    if bad and st["first_bad"] is None:
+        where, why, r = bad
+        st["first_bad"] = (dict(where, oracle="compiled"), dict(where, reason=why, args=r["job"]["args"] if r else None,
+                                                                replay_cmd=("cd /verif && /venv/bin/python tools/vela_worker.py %s/job.json" % r["job"]["out_dir"]) if r else None),
+                           "compiled model %s: %s" % (where["net"], why))
+
+
+def run(tier):
+    import collections
+    res = vlib.Result("C08", tier, "proof")
+    t0 = time.time()
+    b = vlib.build_property("C08")
+    vlib.proof_coverage(res, b, [
+        "extraction (ExtrOcamlBasic only) + ocaml/driver.ml for the correspondence runs",
+        "the weight codec (encode_weights -> mlw_codec.reorder_encode) is NOT modelled: universally quantified `enc`/`codec` in the theorems "
+        "(used only through: length multiple of 16, the fact C07 observes); its bytes are judged per input by the reference decoder",
+        "hand model coq/model/WLayout.v of encode_weight_and_scale_tensor / create_weights / create_dma_op / CompressedWeightCache "
+        "(tied by correspondence, not by translation); hash(str(depth_offsets)) modelled as injective; floats of the scale key as bit patterns",
+        "quantise_scale / reduced_quantise_scale are inputs of the model (C09's subject); the oracle recomputes them exactly"])
+    okx, xlog = vlib.build_extraction(EXE)
+    rng = random.Random(vlib.seed())
+    st = dict(evals=0, dist=collections.Counter(), model_diff=[], valid=0, nontrivial=set(), first_bad=None, samples=[], okx=okx, model_cases=0,
+              hist_kinds=collections.Counter(), stale_fn={}, d2={})
+    timing = {}
+    crashed = None
+    for name, fn in (("function_level", lambda: function_level(rng, tier, st)), ("bias_level", lambda: bias_level(rng, tier, st)),
+                     ("addr_level", lambda: addr_level(rng, tier, st)), ("history_level", lambda: history_level(rng, tier, st)),
+                     ("d2_level", lambda: d2_level(tier, st))):
+        t1 = time.time()
+        try:
+            fn()
+        except Exception as ex:  # a harness part that cannot run is a broken correspondence, never silence
+            import traceback
+            crashed = crashed or (name, traceback.format_exc()[-1500:])
+        timing[name] = round(time.time() - t1, 1)
+    # the refuting histories on the implementation
+    t1 = time.time()
+    try:
+        wit = witness_function_level(st)
+        pipe = pipeline_level(st)
+    except Exception as ex:
+        import traceback
+        wit, pipe = {}, {}
+        crashed = crashed or ("witness", traceback.format_exc()[-1500:])
+    timing["witness"] = round(time.time() - t1, 1)
+    confirmed = []
+    for f in WITNESS_FIELDS:
+        w = wit.get(f, {})
+        p = pipe.get(f)
+        reach = None
+        if p and not p.get("error"):
+            stale_events = [e for e in p["events"] if e.get("stale")]
+            if stale_events and p["stale_tensor_in_command_stream"]:
+                reach = dict(route=PIPELINE_ROUTE[f], exit_codes=p["exit_codes"], first_stale_call=stale_events[0],
+                             stale_tensor_in_command_stream=p["stale_tensor_in_command_stream"][:3])
+        w["compiler_level"] = reach or (dict(not_reached=p.get("error") or "no stale tensor reached a command stream") if p else
+                                        dict(not_reached="no route through the compiler known: not reported"))
+        if w.get("stale_differs_from_fresh") and reach:
+            confirmed.append(f)
+    odd = None
+    if okx:
+        o = models.run("channels", [[2, 8, 16, 8, 3, 0, 3, 8]], exe_name=EXE)[0]
+        odd = o
+    res.cov.update({
+        "evaluations": st["evals"], "distinct_nontrivial": len(st["nontrivial"]),
+        "rule": "evaluations = real calls judged (encode_weight_and_scale_tensor requests incl. cache histories, encode_bias, create_weights / "
+                "create_dma_op per slice, conv-like operations and weight DMAs of compiled models, encode calls inside the replay compilations); "
+                "non-trivial = distinct (operator kind, IFM type, cores, slices, per-channel, block-depth / depth / dilation class) of well-formed "
+                "requests that passed all three oracles, plus distinct classes of the other parts",
+        "requests": {"well_formed_with_oracles": st["valid"], "by_kind_ifm_cores_slicing": dict(sorted(st["dist"].items()))},
+        "model_vs_impl_cases": st["model_cases"], "model_vs_impl_differences": len(st["model_diff"]),
+        "history_responses": {"miss": st["hist_kinds"][1], "hit": st["hist_kinds"][2], "hit_scales_reencoded": st["hist_kinds"][3]},
+        "compiled": st["d2"], "samples": st["samples"], "timing_s": timing,
+        "odd_slice_witness_on_model [core d len | code channels | spec channels]*": odd,
+        "cache_refutation_replayed": wit,
+        "function_level_only_stale_fields (random histories)": sorted(st["stale_fn"]),
+    })
+    res.assumptions += ["the weight codec returns a multiple of 16 bytes (observed on every call here; C07)",
+                        "every interior slice boundary is a multiple of the core count (all scheduler-built lists: multiples of 16 / of the block depth)",
+                        "hash(str(depth_offsets)) is collision-free; value_id identifies the weight values (Vela's own invariant)",
+                        "the set of compilations is sampled"]
+    if crashed:
+        res.notes.append("part %s raised: %s" % crashed)
+
+    if st["first_bad"]:
+        k, d, w = st["first_bad"]
+        res.violation(k, d, w)
+    for f in confirmed:
+        w = wit[f]
+        res.violation({"defect": "weight_cache_key_omits", "field": f},
+                      dict(theorem="cache_reuse_refuted / key_omits (coq/props/C08.v)", function_level=w, how_reached=PIPELINE_ROUTE[f]),
+                      "CompressedWeightCache reuses an encoding although %s differs (key omits it): %s; the stale tensor reaches the command stream "
+                      "(returned sections %s bytes, a fresh encoding %s)" % (
+                          f, PIPELINE_ROUTE[f], w["compiler_level"]["first_stale_call"].get("returned_sections"),
+                          w["compiler_level"]["first_stale_call"].get("fresh_sections")))
+    if not st["first_bad"]:
+        if not b["ok"]:
+            vlib.report_broken_build(res, b, None)
+        elif st["model_diff"] or not okx or crashed:
+            d0 = st["model_diff"][0] if st["model_diff"] else {}
+            res.violation({"correspondence": "wlayout", "why": (d0.get("why") or (crashed[0] if crashed else "extraction"))[:60]},
+                          dict(first=d0, n_differences=len(st["model_diff"]), extraction_ok=okx, crashed=crashed, log=xlog[-600:] if not okx else None),
+                          "correspondence WLayout model vs weight_compressor / high_level_command_to_npu_op no longer holds: %s" % (
+                              d0.get("why") or (crashed[1][-300:] if crashed else "extraction build failed")), no_input=True)
+    return res.finish()
+
+
+if __name__ == "__main__":
+    if len(sys.argv) >= 5 and sys.argv[1] == "--pipeline":
+        sys.path.insert(0, vlib.REPO)
+        os.makedirs(sys.argv[4], exist_ok=True)
+        pipeline_main(sys.argv[2], sys.argv[3].split(","), sys.argv[4])
